@@ -80,6 +80,14 @@ theorem foldl_psim {cfg : Cfg} {nm : String} {view : View}
     foldl_psim f hf l (f acc x) (fun y hy => hl y (List.mem_cons_of_mem _ hy))
       (hf acc x (hl x (List.mem_cons_self ..)) h)
 
+theorem genServerName_sim {cfg : Cfg} {nm : String} {view : View} (enc : String → String) (now : Int)
+    (acc : Target × List Event) (hnm : nm ≠ "") (h : PSim cfg nm view acc) :
+    PSim cfg nm view (genServerName cfg enc now true acc) := by
+  unfold genServerName
+  split
+  · exact genMetaOne_sim enc now acc _ _ _ hnm (by decide) h
+  · exact h
+
 theorem generateMetaUpdates_sim {cfg : Cfg} {nm : String} {view : View} (enc : String → String) (now : Int)
     (t : Target) (hnm : nm ≠ "") (h : PSim cfg nm view (t, [])) :
     PSim cfg nm view (t.generateMetaUpdates cfg enc now true) := by
@@ -100,7 +108,7 @@ theorem generateMetaUpdates_sim {cfg : Cfg} {nm : String} {view : View} (enc : S
     (by intro acc x hx hp; split
         · exact genMetaOne_sim enc now acc x _ _ hnm hx hp
         · exact hp) intNames _ (by decide) s1
-  exact foldl_psim (cfg := cfg) (nm := nm) (view := view) (fun acc name =>
+  have s3 := foldl_psim (cfg := cfg) (nm := nm) (view := view) (fun acc name =>
       match acc.1.md.getStr name with
       | some v => genMetaOne cfg enc now true acc name (.str v)
           (fun sv => match sv with | .scalar (.str s) => s == v | _ => false)
@@ -108,6 +116,7 @@ theorem generateMetaUpdates_sim {cfg : Cfg} {nm : String} {view : View} (enc : S
     (by intro acc x hx hp; split
         · exact genMetaOne_sim enc now acc x _ _ hnm hx hp
         · exact hp) strNames _ (by decide) s2
+  exact genServerName_sim enc now _ hnm s3
 
 /-- **Metadata refresh** (`Target.updateMeta` with a client): the emitted events keep the view in step. -/
 theorem updateMeta_sim {cfg : Cfg} {nm : String} {view : View} (enc : String → String) (now : Int)
